@@ -323,26 +323,26 @@ theorem merge_checked {fn : Fn R} {k : SplitConsts R} {c c' : Cell R} {e : Edge}
 /-! #### the guard of the collapse
 
   `can_be_merged` walks the two fans (`get_connected_nodes`), sorts the two neighbour lists with `Array.qsort` and counts
-  the common neighbours.  `SortSpecAt c e` = "the two sorted lists of this call are sorted" is the one fact about
-  `Array.qsort` that is not proved (only "is a permutation" is); the driver evaluates it (`chkSortSpec`). -/
+  the common neighbours.  That `Array.qsort` returns a sorted permutation is proved in `Lemmas/RemeshRefine.lean`
+  (permutation) and `Lemmas/QSortSorted.lean` (sorted): `sortNat_sorted`. -/
 
 /-- **the code collapses exactly the edges that satisfy the link condition** -/
 theorem merge_guard_iff {c : Cell R} {e E : Edge} (hI : EdgeIdxComplete c)
     (hentry : getEdge c e.n1 e.n2 = some E)
     (hord : (E.f1 = e.f1 ∧ E.f2 = e.f2) ∨ (E.f1 = e.f2 ∧ E.f2 = e.f1))
-    (mA : VertexManifold c e.n1) (mB : VertexManifold c e.n2) (hs : SortSpecAt c e) {t1 t2 : Tri}
+    (mA : VertexManifold c e.n1) (mB : VertexManifold c e.n2) {t1 t2 : Tri}
     (h1 : findDir (Remesh.abs c) e.n1 e.n2 = some t1) (h2 : findDir (Remesh.abs c) e.n2 e.n1 = some t2) :
     canBeMerged c e = .ok true ↔ LinkCond (Remesh.abs c) e.n1 e.n2 (opp t1 e.n1 e.n2) (opp t2 e.n2 e.n1) :=
-  Remesh.merge_guard_iff hI hentry hord mA mB hs h1 h2
+  Remesh.merge_guard_iff hI hentry hord mA mB (sortSpecAt c e) h1 h2
 
 theorem canBeMerged_sound {c : Cell R} {e E : Edge} (hI : EdgeIdxComplete c)
     (hentry : getEdge c e.n1 e.n2 = some E)
     (hord : (E.f1 = e.f1 ∧ E.f2 = e.f2) ∨ (E.f1 = e.f2 ∧ E.f2 = e.f1))
-    (mA : VertexManifold c e.n1) (mB : VertexManifold c e.n2) (hs : SortSpecAt c e) {t1 t2 : Tri}
+    (mA : VertexManifold c e.n1) (mB : VertexManifold c e.n2) {t1 t2 : Tri}
     (h1 : findDir (Remesh.abs c) e.n1 e.n2 = some t1) (h2 : findDir (Remesh.abs c) e.n2 e.n1 = some t2)
     (h : canBeMerged c e = .ok true) :
     LinkCond (Remesh.abs c) e.n1 e.n2 (opp t1 e.n1 e.n2) (opp t2 e.n2 e.n1) :=
-  Remesh.canBeMerged_sound hI hentry hord mA mB hs h1 h2 h
+  Remesh.canBeMerged_sound hI hentry hord mA mB (sortSpecAt c e) h1 h2 h
 
 /-- `can_be_merged` returns (never `fuel` / `badopt` / `ub`) when the index is complete and both end nodes are manifold -/
 theorem canBeMerged_defined {c : Cell R} {e E : Edge} (hI : EdgeIdxComplete c)
@@ -351,7 +351,10 @@ theorem canBeMerged_defined {c : Cell R} {e E : Edge} (hI : EdgeIdxComplete c)
     (mA : VertexManifold c e.n1) (mB : VertexManifold c e.n2) : ∃ r, canBeMerged c e = .ok r :=
   Remesh.canBeMerged_defined hI hentry hord mA mB
 
-/-- the Boolean test `chkSortSpec` the driver evaluates implies `SortSpecAt` -/
+/-- `sortNat` (= `Array.qsort` with `<` on the node ids) returns a sorted list -/
+theorem sortNat_sorted (l : List Nat) : (sortNat l).Pairwise (· ≤ ·) := sortSpec l
+
+/-- the Boolean test `chkSortSpec` implies `SortSpecAt` (kept for the driver; `SortSpecAt` holds for every call) -/
 theorem sortspec_check_sound (c : Cell R) (e : Edge) (h : chkSortSpec c e = true) : SortSpecAt c e :=
   sortSpecAt_of_B h
 
@@ -362,10 +365,10 @@ theorem merge_executed_refines {fn : Fn R} {k : SplitConsts R} {c c' : Cell R} {
     (hI : EdgeIdxComplete c) (hf : FaceFreeOk c) (hentry : getEdge c e.n1 e.n2 = some E)
     (hord : (E.f1 = e.f1 ∧ E.f2 = e.f2) ∨ (E.f1 = e.f2 ∧ E.f2 = e.f1))
     (mA : VertexManifold c e.n1) (mB : VertexManifold c e.n2)
-    (hfresh : Fresh (Remesh.abs c) (Simu.C11.newSlot c)) (hInv : Inv (Remesh.abs c)) (hs : SortSpecAt c e) :
+    (hfresh : Fresh (Remesh.abs c) (Simu.C11.newSlot c)) (hInv : Inv (Remesh.abs c)) :
     Remesh.abs c' = collapseT (Remesh.abs c) e.n1 e.n2 (Simu.C11.newSlot c) ∧ Inv (Remesh.abs c') ∧
       FaceFreeOk c' ∧ EdgeIdxComplete c' :=
-  mergeEdge_executed hg h hI hf hentry hord mA mB hfresh hInv hs
+  mergeEdge_executed hg h hI hf hentry hord mA mB hfresh hInv (sortSpecAt c e)
 
 /-! #### vertex-manifoldness of the concrete state
 
@@ -404,11 +407,10 @@ theorem merge_executed_invariants {fn : Fn R} {k : SplitConsts R} {c c' : Cell R
     (hg : canBeMerged c e = .ok true) (h : mergeEdge fn k c e chk = .ok (c', chk'))
     (hI : EdgeIdxComplete c) (hf : FaceFreeOk c) (hentry : getEdge c e.n1 e.n2 = some E)
     (hord : (E.f1 = e.f1 ∧ E.f2 = e.f2) ∨ (E.f1 = e.f2 ∧ E.f2 = e.f1))
-    (hv : AllVMC (Remesh.abs c)) (hfresh : Fresh (Remesh.abs c) (Simu.C11.newSlot c)) (hInv : Inv (Remesh.abs c))
-    (hs : SortSpecAt c e) :
+    (hv : AllVMC (Remesh.abs c)) (hfresh : Fresh (Remesh.abs c) (Simu.C11.newSlot c)) (hInv : Inv (Remesh.abs c)) :
     Remesh.abs c' = collapseT (Remesh.abs c) e.n1 e.n2 (Simu.C11.newSlot c) ∧ Inv (Remesh.abs c') ∧
       FaceFreeOk c' ∧ EdgeIdxComplete c' ∧ AllVMC (Remesh.abs c') :=
-  mergeEdge_executed_vmc hg h hI hf hentry hord hv hfresh hInv hs
+  mergeEdge_executed_vmc hg h hI hf hentry hord hv hfresh hInv (sortSpecAt c e)
 
 /-! #### total correctness of the collapse -/
 
